@@ -48,3 +48,63 @@ fn ellipse_guard_must_panic() {
   let _ = l.elliptical_cone_coverage_internal(kani::any(), kani::any(), a, kani::any(), kani::any());
   assert!(false, "MUST_PANIC elliptical cone accepted a semi-major axis >= pi/2");
 }
+
+// ---- C13 small-ellipse branch, structural contract -----------------------------------------------
+// With the geometry predicates replaced by arbitrary answers (contains / overlap_cone: any bool; centre
+// of a cell: a tag) and the builder by its contract, the small-ellipse branch (best_starting_depth(a)
+// >= requested depth) must push, in increasing order, valid cells of the requested depth, each of
+// which is the ancestor of the centre cell or of one of its neighbours at the starting depth.
+use crate::nested::bmoc::verif_bmoc as vb;
+static mut E_ROOT: u64 = 0;
+fn ghost_goc(depth: u8) -> &'static Layer { Box::leak(Box::new(Layer::new(depth))) }
+fn ghost_layer_hash(_l: &Layer, _lon: f64, _lat: f64) -> u64 { unsafe { E_ROOT } }
+fn ghost_center(_l: &Layer, _hash: u64) -> (f64, f64) { (0.0, 0.0) }
+fn ghost_contains(_e: &crate::sph_geom::elliptical_cone::EllipticalCone, _lon: f64, _lat: f64) -> bool { kani::any() }
+fn ghost_overlap(_e: &crate::sph_geom::elliptical_cone::EllipticalCone, _lon: f64, _lat: f64, _r: f64) -> bool { kani::any() }
+fn ghost_c2v(_depth: u8, _lon: f64, _lat: f64, _r: f64) -> f64 { 0.1 }
+static mut E_DS: u8 = 0;
+fn ghost_bsd(_r: f64) -> u8 { unsafe { E_DS } }
+fn ghost_has_bsd(_r: f64) -> bool { true }
+fn check_small_ellipse(d: u8, ds: u8) {
+  let l = Layer::new(d);
+  let root: u64 = kani::any();
+  kani::assume(root < sp::n_hash(ds));
+  unsafe { E_ROOT = root; E_DS = ds; }
+  let c: u64 = kani::any();
+  kani::assume(c < sp::n_hash(d));
+  vb::g_reset(c, d);
+  let a: f64 = kani::any(); let b: f64 = kani::any();
+  kani::assume(a > 0.0 && a < 0.5 && b > 0.0 && b <= a);
+  let _ = l.elliptical_cone_coverage_internal(0.3, 0.2, a, b, 0.1);
+  let (_last, state, count, ok) = vb::g_snapshot();
+  assert!(ok && count <= 1, "C13/C09 small-ellipse branch pushes valid cells of the requested depth, in increasing order, without duplicates");
+  // a pushed cell is the ancestor (at the requested depth) of the centre cell or of one of its neighbours
+  if state != 0 {
+    let sh = 2 * (ds - d) as u32;
+    let root_layer = Layer::new(ds);
+    let nb = root_layer.neighbours(root, true);
+    let mut is_anc = false; let mut k = 0u8;
+    while k < 9 { if let Some(&x) = nb.get(crate::compass_point::MainWind::from_index(k)) { if (x >> sh) == c { is_anc = true; } } k += 1; }
+    assert!(is_anc, "C13 every cell reported by the small-ellipse branch contains the centre cell or one of its neighbours at the starting depth");
+    assert!(state == 1, "C13 small-ellipse branch reports partial cells only");
+  }
+  kani::cover!(state != 0, "tracked cell reported");
+}
+macro_rules! sme { ($name:ident, $d:literal, $ds:literal) => {
+  #[kani::proof]
+  #[kani::stub(crate::nested::get_or_create, ghost_goc)]
+  #[kani::stub(Layer::hash, ghost_layer_hash)]
+  #[kani::stub(Layer::center, ghost_center)]
+  #[kani::stub(crate::sph_geom::elliptical_cone::EllipticalCone::contains, ghost_contains)]
+  #[kani::stub(crate::sph_geom::elliptical_cone::EllipticalCone::overlap_cone, ghost_overlap)]
+  #[kani::stub(crate::largest_center_to_vertex_distance_with_radius, ghost_c2v)]
+  #[kani::stub(crate::best_starting_depth, ghost_bsd)]
+  #[kani::stub(crate::has_best_starting_depth, ghost_has_bsd)]
+  #[kani::stub(BMOCBuilderUnsafe::new, vb::ghost_new)]
+  #[kani::stub(BMOCBuilderUnsafe::push, vb::ghost_push)]
+  #[kani::unwind(12)]
+  fn $name() { check_small_ellipse($d, $ds) }
+} }
+sme!(ellipse_small_d1_ds1, 1, 1);
+sme!(ellipse_small_d1_ds2, 1, 2);
+sme!(ellipse_small_d0_ds2, 0, 2);
